@@ -316,6 +316,11 @@ class ExprMixin:
             return VTuple([self.lift_literal(x) for x in sorted(lit, key=repr)])
         raise Unsupported(f"literal {lit!r}")
 
+    def e_NamedExpr(self, node, fr):
+        v = self.eval(node.value, fr)
+        fr.locals[node.target.id] = v
+        return v
+
     def e_Tuple(self, node, fr):
         return VTuple([self.eval(e, fr) for e in node.elts])
 
@@ -535,6 +540,10 @@ class ExprMixin:
                 m = z3.simplify(y).as_long()
                 if m & (m + 1) == 0:  # mask 2^k - 1
                     return VInt(x % (m + 1)) if not z3.is_int_value(z3.simplify(x)) else VInt(z3.simplify(x).as_long() & m)
+            if isinstance(op, ast.BitOr) and z3.is_int_value(z3.simplify(y)):
+                m = z3.simplify(y).as_long()
+                if m > 0 and m & (m - 1) == 0:  # a single bit 2^k: set it unless it is set already
+                    return VInt(z3.If((x / m) % 2 == 0, x + m, x))
             raise Unsupported(f"int op {type(op).__name__}")
         if isinstance(op, ast.Add) and isinstance(a, VStr) and a.kind == "lit" and isinstance(b, VAtom):
             a = VAtom(a.a)
@@ -779,6 +788,10 @@ class ExprMixin:
         if isinstance(base, VObj) and base.cls == "<opaque>":
             it = z3.simplify(self.as_int(idx)) if isinstance(idx, (VInt, VBool)) else None
             tag = str(it) if it is not None else (repr(idx.a) if isinstance(idx, VStr) and idx.kind == "lit" else None)
+            if tag is None and base.ref.startswith("global:") and isinstance(idx, VStr):
+                # module-level mapping indexed by a computed string: KeyError unless the key is present
+                self.safe_or_raise(self.opaque_has_key(base, idx), "KeyError", node, fr, "subscript")
+                return VAtom(z3.Int(self.new_ref(base.ref.split(".")[-1] + "_value")))
             if tag is None:
                 raise Unsupported("opaque subscript with symbolic key")
             self.assumption_log.add(f"subscript of opaque value {base.ref.split('#')[0]} assumed not to raise")
@@ -983,8 +996,17 @@ class ExprMixin:
         if isinstance(container, VObj) and container.cls == "<opaque>":
             # membership in an opaque mapping (env, env["references"]): value unknown, the test itself is pure
             self.assumption_log.add("`in` on an opaque mapping: pure, outcome unconstrained")
+            if container.ref.startswith("global:") and isinstance(x, VStr):
+                # a module-level mapping (read-only after import, C12 FRAME): the outcome is a function of the key
+                return self.opaque_has_key(container, x)
             return fresh("in_opaque", "bool")
         raise Unsupported(f"in on {container!r}")
+
+    def opaque_has_key(self, container, key):
+        k = ("haskey", container.ref, repr(key))
+        if k not in self.ghost:
+            self.ghost[k] = fresh("has_key", "bool")
+        return self.ghost[k]
 
     def cache_is_none(self, x):
         return z3.Bool(f"isnone({x.ref})")
